@@ -599,6 +599,31 @@ pub fn main(args: &[String]) {
                 println!("OK {}", idx);
             }
         }
+        "gridwitness" => {
+            // witness of C04_grid_maximise_refuted: one column minmax(0px, 1px), one row 50px, container 1/16 x 50, one empty
+            // item, everything multiplied by k: prints the bit pattern of the column's size
+            let k: f32 = args[1].parse().unwrap();
+            let mut t: TaffyTree<Ctx> = TaffyTree::new();
+            let item = t.new_leaf(Style { grid_row: line(1), grid_column: line(1), ..Default::default() }).unwrap();
+            let root = t
+                .new_with_children(
+                    Style {
+                        display: Display::Grid,
+                        size: Size { width: length(0.0625 * k), height: length(50.0 * k) },
+                        grid_template_columns: vec![minmax(length(0.0), length(1.0 * k))],
+                        grid_template_rows: vec![length(50.0 * k)],
+                        ..Default::default()
+                    },
+                    &[item],
+                )
+                .unwrap();
+            t.disable_rounding();
+            compute(&mut t, root, Size::MAX_CONTENT);
+            match t.detailed_layout_info(root) {
+                taffy::DetailedLayoutInfo::Grid(g) => println!("GRIDWITNESS {}", g.columns.sizes[0].to_bits()),
+                _ => println!("GRIDWITNESS none"),
+            }
+        }
         "witness" => {
             for which in 0..4 {
                 let (spec, a, k) = witness_spec(which);
